@@ -11,6 +11,7 @@ THEOREMS = [
     "C09.find_names_eq", "C09.find_attrs_eq", "C09.find_paths_eq", "C09.find_children_eq",
     "C09.find_children_binary_eq", "C09.find_full_path_iff", "C09.relative_eq_spec",
     "C09.relative_paths_eq", "C09.find_full_path_path_name", "C09.preorder_is_iter_preorder",
+    "C09.find_full_path_iff_multi", "C09.find_full_path_path_name_multi", "C09.join_split_multi",
 ]
 PROOF_IMPORTS = ["BigtreeProofs.Properties.C09"]
 RULE = ("each of the 14 search functions from every start node of: all ordered trees up to N nodes (deterministic labelling "
@@ -36,8 +37,9 @@ MODELLED = [
     "the absolute-path branch of find_relative_paths (query starts with the separator) is out of scope (DESIGN section 5) and never generated",
 ]
 ASSUMPTIONS = [
-    "theorems about paths (find_full_path_iff) assume a single-character separator that occurs in no name, non-empty names and "
-    "sibling-unique names (what Node enforces); other separators and duplicated sibling names are covered by the tie only",
+    "theorems about paths (find_full_path_iff, find_full_path_iff_multi) assume a non-empty separator sharing no character with "
+    "any name (one character: it occurs in no name), non-empty names and sibling-unique names (what Node enforces); names that "
+    "contain separator characters and duplicated sibling names are covered by the tie only",
 ]
 
 ALPHA = ["a", "b", "ab", "ba", "aa", "a b", "a.b"]
@@ -926,7 +928,9 @@ LEVEL_TEXT = ("Proof. Lean 4 theorems (C09.*) show, for every tree, start node, 
               "find_children / find_child / find_child_by_name look at exactly the existing children (on a BinaryNode the two slots, empty "
               "ones skipped); find_full_path (strip, split, check the root name, descend component-wise) returns node v iff v exists and its "
               "names joined by the separator are the stripped query, and find_full_path(path_name(v)) = v (one-character separator in no "
-              "name, non-empty sibling-unique names); the accumulator-style resolve of find_relative_paths equals the denotational "
+              "name, non-empty sibling-unique names; find_full_path_iff_multi / find_full_path_path_name_multi: the same for EVERY "
+              "non-empty separator such as '::' or '->' whose characters occur in no name, with any run of separator characters "
+              "around the path - Python strips a character SET; join_split_multi: join(split x) = x for every string); the accumulator-style resolve of find_relative_paths equals the denotational "
               "resolveSpec ('.' stay, '..' parent or SearchError at the root, '*' every child in order, a name that child, a missing name "
               "SearchError unless the query contains a wildcard) and the public function adds the count contract; the pre-order used is "
               "C04's model of preorder_iter. The model is tied to /repo on every run by differential testing of all 14 functions from "
@@ -936,6 +940,6 @@ LEVEL_TEXT = ("Proof. Lean 4 theorems (C09.*) show, for every tree, start node, 
               "oracle (own traversal of .children, own path strings, breadth-wise file-system reading of relative paths) checks every case. History-built trees (build through constructors, warm-up searches, renames / re-parentings / reorderings, then the compared searches against the model of the final tree) make stale caches or indexes in the search path visible.")
 LEVEL_NOTE = ("Trusted: Lean kernel, axioms <= {propext, Classical.choice, Quot.sound} (audited each run), the hand-written model's "
               "correspondence to search.py as established by the tie (not proved), CPython. Conditions are functions of node identity; "
-              "strings are character lists with Python's strip / split / endswith re-implemented in the model (multi-character separators "
-              "and names containing the separator are covered by the tie only; the path theorems assume a one-character separator in no "
+              "strings are character lists with Python's strip / split / endswith re-implemented in the model (names containing separator "
+              "characters are covered by the tie only; the path theorems assume a non-empty separator that shares no character with a "
               "name). The absolute-path branch of find_relative_paths is out of scope (DESIGN section 5) and never generated.")
